@@ -1,5 +1,6 @@
 import CalVerif.Prim.Res
 import CalVerif.Model.Range
+import CalVerif.Gen.BErrTables
 /-! Model of the XLSB record reader and worksheet cell reader
     (`/repo/src/xlsb/mod.rs`: `RecordIter::{read_type, fill_buffer, next_skip_blocks}`, `wide_str`,
     `read_shared_strings`, `cell_format`; `/repo/src/xlsb/cells_reader.rs`: `XlsbCellsReader::new`,
@@ -253,9 +254,9 @@ def rkVal (ctx : Ctx) (buf : Bytes) : Val :=
   else
     formatF64 ctx buf (if d100 then fdiv100 (rkFloatBits w) else rkFloatBits w)
 
-/-- the BErr codes `next_cell` accepts -/
-def isErrCode (c : Nat) : Bool :=
-  c = 0x00 || c = 0x07 || c = 0x0F || c = 0x17 || c = 0x1D || c = 0x24 || c = 0x2A || c = 0x2B
+/-- the BErr codes `next_cell` accepts: the arms of its `match self.buf[8]`, translated from the source on every
+    run (`Gen.xlsbErrTable`, tools/extract_tables.py) -/
+def isErrCode (c : Nat) : Bool := (Gen.xlsbErrTable.lookup c).isSome
 
 /-- what one record means to the cell loop -/
 inductive Step where
